@@ -345,7 +345,7 @@ def check_solve(chk, sc, consts):
     cap_cell = None
     if robust_exhaustion:
         # the Krylov space is exhausted and orthogonality is not yet lost: working-precision accuracy
-        lim = 200 * kap * u * (10 if has_p else 1)
+        lim = 200 * kap * u * (1000 if has_p else 1)
     elif stopped_early:
         lim = 4 * tol * entries * (math.sqrt(kap) + 1) + 200 * kap * u
     elif cap_by_size:
@@ -405,7 +405,7 @@ def check_scaling(chk, sc, c, consts):
     if sc["rhs"].dtype == F32 and (sc["n"] == 1 or sc["kappa"] <= 1) and not (torch.isfinite(want).all() and torch.isfinite(got).all()):
         chk.violation(f"C11/minres/f32-exact-breakdown/n={sc['n']}|kappa={sc['kappa']:g}", "float32, Krylov space exhausted (almost) exactly: non-finite solution", pl)
         return
-    if not pow2_ok(c) and sc["kappa"] > 1e3:
+    if not pow2_ok(c) and (sc["kappa"] > 1e3 or sc["n"] > 12):
         c = 4.0 if c > 0 else 0.25
         want, got = r1.result * c, run_impl(sc, rhs=sc["rhs"] * c).result
     pow2 = pow2_ok(c)
